@@ -135,7 +135,7 @@ func (c *Ctx) iterMustPass(rule, keyPrefix string, fn *ssa.Function, what string
 
 // Outcome labels for three-valued decision tables.
 func returnOutcome(ret *ssa.Return, idx int, trace []int) string {
-	v := ret.Results[idx]
+	v := ssau.ResolveSpill(ret.Results[idx])
 	if phi, ok := v.(*ssa.Phi); ok && phi.Block() == ret.Block() && len(trace) >= 2 {
 		prev := trace[len(trace)-2]
 		for i, p := range phi.Block().Preds {
